@@ -77,7 +77,15 @@ Unknown(kind) ==                    \* "word", "empty", "nontext", "begin"
     /\ phase' = "closed" /\ out' = <<"close">>
     /\ UNCHANGED <<todo, cur, offered, okSeen, fdAnswered>>
 
+(* once the client has hung up, whatever the server still says - in the same read as the line that
+   made it give up, or later - is ignored: nothing more is written *)
+AfterClose(kind) ==
+    /\ phase = "closed"
+    /\ out' = <<>>
+    /\ UNCHANGED <<phase, todo, cur, offered, okSeen, fdAnswered>>
+
 Next ==
+    \/ (\E k \in {"ok", "rejected"} : AfterClose(k))
     \/ Rejected \/ ErrorLine \/ Agree
     \/ \E g \in {"valid", "nothex", "missing"} : Ok(g)
     \/ \E k \in {"challenge", "garbage"} : Data(k)
@@ -95,7 +103,7 @@ BeginSafe == phase = "begun" => okSeen /\ (Unix => fdAnswered)
 InOrderOnce == offered = SubSeq(Pref, 1, Len(offered))
 
 (* the client never goes silent while the handshake is open *)
-NoStall == [][out' # <<>>]_vars
+NoStall == [][Live => out' # <<>>]_vars
 
 (* it gives up only when nothing is left to offer or the server left the protocol *)
 ClosedForReason == [][phase' = "closed" /\ phase # "closed" =>
